@@ -134,6 +134,14 @@ SCENARIOS = {
         ('create-rejected-vs-create', [('alloc_put', 39, cons(5, None, [(6, [(0, 99)])])), ('alloc_put', 39, cons(5, None, [(6, [(0, 1)])]))]),
         ('reshape-clearing-vs-put', [('reshape', 39, [(6, G[6], [inv(0, 4)])], [cons(2, 1, [])]),
                                      ('alloc_put', 39, dict(cons(2, 1, [(6, [(0, 1)])]), user=2))]),
+        # a request that EMPTIES a consumer, overtaken by a write to a provider the consumer holds resources on (the allocation
+        # write is retried on the server after the provider generation conflict): the consumer must still go (seed C12-f)
+        ('put-empty-vs-inventory-put', [('alloc_put', 39, cons(2, 1, [])), ('inv_put', 39, 2, G[2], inv(0, 16))]),
+        ('post-empty-vs-traits', [('alloc_post', 39, [cons(2, 1, [])]), ('traits_set', 39, 2, G[2], [100001])]),
+        ('post-move-vs-inventory-put', [('alloc_post', 39, [cons(3, 1, []), cons(5, None, [(1, [(0, 2)])])]),
+                                        ('inv_put', 39, 4, G[4], inv(2, 60))]),
+        ('reshape-emptying-vs-inventory-put', [('reshape', 39, [(6, G[6], [inv(0, 4), inv(1, 64)])], [cons(3, 1, [])]),
+                                               ('inv_put', 39, 1, G[1], inv(0, 16))]),
     ],
 }
 # scenarios judged by the oracles only (none at present)
@@ -224,6 +232,17 @@ def judge(pid, scn, obs, dump, start_dump):
                 if (row[0][1], row[0][2], row[0][3]) != want:
                     v.append(('incomplete', 'accepted %s names project/user/type %r for consumer %d, stored is %r'
                               % (op[0], want, k['uuid'], (row[0][1], row[0][2], row[0][3]))))
+    # an accepted request that empties a consumer nobody else names leaves no consumer record (C12)
+    for op, o in zip(scn.requests, obs):
+        if o[0] < 300:
+            for k in named_consumers(op):
+                others = sum(1 for op2 in scn.requests if op2 is not op and (
+                    any(k2['uuid'] == k['uuid'] for k2 in named_consumers(op2)) or (op2[0] == 'alloc_delete' and op2[1] == k['uuid'])))
+                if k['allocs'] or others:
+                    continue
+                if any(r[0] == k['uuid'] for r in dump[3]):
+                    v.append(('consumer-left', 'accepted %s emptied consumer %d, whose record is still there%s' % (
+                        op[0], k['uuid'], ' with allocations' if any(a[0] == k['uuid'] for a in dump[2]) else ' without allocations')))
     if not any(o[0] >= 500 for o in obs) and all(guarded(op) for op in scn.requests):
         good, tried = conc.serializable(scn, obs, dump)
         if not good:
